@@ -565,7 +565,7 @@ func c11SameUpToTieOrder(a, b string) bool {
 // child with a consistent history, the version that was current at t.
 func (c *c11Case) timeTravel(o c11Out) *Violation {
 	// two regimes have a ground truth: every version of parent and children carries a commit time (the
-	// effective time of a version is its commit; the window of parent i is [commit i, commit i+1 - thr)), or none
+	// effective time of a version is its commit; the window of parent i is [commit i, commit i+1)), or none
 	// does (the effective time is the timestamp; the child reference is chosen by the grouping heuristic, so the
 	// window only starts once the grouping threshold has passed: [ts i + thr, ts i+1 - thr)). Mixed histories: nothing claimed.
 	nCommit, nTs := 0, 0
@@ -642,7 +642,12 @@ func (c *c11Case) timeTravel(o c11Out) *Violation {
 		}
 		end := int64(1 << 62)
 		if i+1 < len(c.ps) {
-			end = c.ps[i+1].commit - c.thr
+			// commit-time regime: the grouping threshold plays no role, the window runs up to the next version's
+			// commit (theorem time_travel); timestamp regime: up to the threshold before it (time_travel_ts)
+			end = c.ps[i+1].commit
+			if tsRegime {
+				end -= c.thr
+			}
 		}
 		// timestamp regime: which version a slot carries is the grouping heuristic's choice, but whatever it
 		// chooses is a visible version stamped no later than the parent's time stamp plus the threshold, and not
@@ -717,7 +722,7 @@ func (c *c11Case) timeTravel(o c11Out) *Violation {
 					continue
 				}
 				if u.Timestamp.Unix() <= p.commit || (i+1 < len(c.ps) && u.Timestamp.Unix() > c.ps[i+1].commit) {
-					return &Violation{Signature: "update-outside-window", Text: fmt.Sprintf("parent version %d (commit %d, next commit %v): update %+v is stamped at or before this version's commit or after the next version's commit", i+1, p.commit, end+c.thr, u)}
+					return &Violation{Signature: "update-outside-window", Text: fmt.Sprintf("parent version %d (commit %d, next commit %v): update %+v is stamped at or before this version's commit or after the next version's commit", i+1, p.commit, end, u)}
 				}
 			}
 		}
